@@ -431,7 +431,7 @@ PROPS["C09"]["lean_modules"].append("GoSup.Props.C09L")
 PROPS["C09"]["theorems"] += ["GoSup.Props.C09L.c09_none_survive", "GoSup.Props.C09L.c09_one_live_generation",
                              "GoSup.Props.C09L.c09_no_nil_context", "GoSup.Props.C09L.stuck_step",
                              "GoSup.Props.C09L.c09_f1_stuck_forever", "GoSup.Props.C09L.c09_f1_reachable",
-                             "GoSup.Props.C09L.c09_running_is_configured"]
+                             "GoSup.Props.C09L.c09_running_is_configured", "GoSup.Props.C09L.c09_stop_never_stuck_nonblocking"]
 PROPS["C10"]["lean_modules"].append("GoSup.Props.C09L")
 PROPS["C10"]["theorems"] += ["GoSup.Props.C09L.c10_failed_is_real", "GoSup.Props.C09L.c10_failure_taken"]
 PROPS["C10"]["level_text"] += (" Concurrent model CompLts, every interleaving: Run() returns ErrRunnableFailed naming a child only if "
@@ -443,7 +443,8 @@ PROPS["C09"]["level_text"] = (
     "interleaving - while Run waits in its select and no reload is under way the children launched in the one live generation are "
     "the configured ones by the code's membership criterion and every other generation is cancelled; once Run() has returned the context of every generation of children ever booted is done, also of one booted "
     "afterwards by an overtaken reload; at most one generation is alive at any time; boot never gets a nil context; the recorded "
-    "deadlock C09-F1 is a reachable configuration of the model that no action leaves (Run() and Reload() never return). "
+    "deadlock C09-F1 is a reachable configuration of the model that no action leaves (Run() and Reload() never return), while with "
+    "children whose Stop() never waits no reachable state with a waiting Stop() is stuck (c09_stop_never_stuck_nonblocking). "
     "Operation-level model CompSeq: Running and not returned => running children = configured children, for histories of any "
     "length. That Stop()/Reload() return in the remaining interleavings is checked on traces.")
 PROPS["C09"]["assumptions"] = ["children are mock runnables honouring the Runnable contract in the stated style",
@@ -501,6 +502,9 @@ for _pid, _thms, _text in [
 
 # the concurrent HTTP server model (HttpLts): every interleaving of Run, Reload(), Stop(), cancellation and server events
 PROPS["C12"]["lean_modules"].append("GoSup.Props.C12L")
+PROPS["C13"]["theorems"] += ["GoSup.Props.C12L.c13_stop_never_stuck"]
+PROPS["C14"]["lean_modules"].append("GoSup.Props.C12L")
+PROPS["C14"]["theorems"] += ["GoSup.Props.C12L.c13_stop_never_stuck"]
 PROPS["C12"]["theorems"] += ["GoSup.Props.C12L.c12_one_open_instance", "GoSup.Props.C12L.c12_released",
                              "GoSup.Props.C12L.c12_running_serving", "GoSup.Props.C12L.c12_f1_reachable"]
 PROPS["C12"]["level_text"] = (
@@ -517,7 +521,8 @@ for _p in ("C12", "C13"):
 PROPS["C12"]["assumptions"].append("HttpLts is validated against the code by the skeleton ties of the httpserver package and by the "
                                    "trace acceptor over every history of the httpsrv leg without a foreign listener")
 PROPS["C13"]["level_text"] = PROPS["C13"].get("level_text", "") + (
-    " Concurrent model HttpLts: an equivalent configuration ends the reload without touching instance, guard or instance table "
+    " Concurrent model HttpLts: in no reachable state with a waiting Stop() is the library stuck - Run can move on or the reload "
+    "holding r.mutex can (c13_stop_never_stuck); an equivalent configuration ends the reload without touching instance, guard or instance table "
     "(c13_same_untouched); a changed one shuts the current instance down and boots one that did not exist before (c13_changed_fresh).")
 
 PROPS["C08"] = {
